@@ -479,6 +479,18 @@ def decl_route(ctx, bad_rate):
         if sp:
             d["splicer"] = sp
         decls.append(d)
+    # functions with a second generated wrapper (the bufferify variant of a std::string argument): `c` is the code of the plain
+    # wrapper, `c_buf` of the variant; a variant the user gave no code for keeps its generated body
+    neg = {}
+    for j, keys in enumerate((("c",), ("c_buf",), ("c", "c_buf"))):
+        sp = {}
+        for kk in keys:
+            body = ["// user %s body of sfun%d" % (kk, j), "return %d;" % (40 + 2 * j + len(kk))]
+            sp[kk] = body
+            exp[("c", "function.sfun%d%s" % (j, "_bufferify" if kk == "c_buf" else ""))] = (body, set())
+        if "c_buf" not in keys:
+            neg[("c", "function.sfun%d_bufferify" % j)] = sp["c"]
+        decls.append({"decl": "int sfun%d(const std::string &name)" % j, "splicer": sp})
     y = {"library": "decsp", "cxx_header": "decsp.hpp", "options": {"wrap_python": True, "wrap_lua": False}, "declarations": decls}
     # a COMPETING user definition of the same blocks through splicer_code (functions 0-2) and of other blocks (3-5): code written
     # on the declaration has the highest priority, a user block wins only where the declaration says nothing
@@ -511,6 +523,11 @@ def decl_route(ctx, bad_rate):
     for fn, data in corpus.read_dir(od).items():
         g = group_of(fn)
         for (bn, lines) in parse_blocks(data.decode("utf-8", "replace")):
+            if (g, bn) in neg and norm(lines) == norm(neg[(g, bn)]):
+                ctx.count(1, ("decl-neg", g, bn))
+                fails.append({"kind": "block-differs", "corpus": "generated decl library", "route": "decl", "group": g, "block": bn, "file": fn,
+                              "supplied": ["<nothing: the declaration gives code for the plain wrapper only>"], "found": lines, "line_kinds": [],
+                              "yaml": open(yp).read()})
             if (g, bn) in exp and not fn.endswith(".h"):
                 seen.add((g, bn))
                 body, kinds = exp[(g, bn)]
